@@ -440,3 +440,281 @@ func structNamed(t types.Type) *types.Named {
 	}
 	return n
 }
+
+// REM-ORDER (C06): the removal primitive deletes its own storage record before it cascades.
+func ruleRemOrder(w *World, r *Report) {
+	r.Rule("REM-ORDER", "in every State implementation the removal primitive removes the id's own record from storage before it cascades to the dependents (on every path on which the record exists): if the process dies between the storage writes of one removal, what is left is an orphan property of an id that is gone, never a rule or fact stripped of its acknowledged properties (a disabled rule must not come back enabled after reload)", 2)
+	a := newLocAnchors(w)
+	st := w.Named("core", "Storage")
+	for n := range a.stateImp {
+		owner := typeKey(n)
+		ff := stateFactField[owner]
+		var rem, dd *ssa.Function
+		for _, fn := range w.MethodsOf(n) {
+			allInstrs(fn, func(in ssa.Instruction) {
+				if c := callOf(in); c != nil {
+					if b, ok := c.Value.(*ssa.Builtin); ok && b.Name() == "delete" && len(c.Args) == 2 && isFieldLoad(c.Args[0], owner, ff) {
+						rem = fn
+					}
+				}
+			})
+			if fn.Name() == "deleteDependencies" {
+				dd = fn
+			}
+		}
+		if rem == nil || dd == nil {
+			undecided("REM-ORDER: removal primitive or deleteDependencies not found for %s", owner)
+		}
+		isStoreRemove := func(in ssa.Instruction) bool {
+			c := callOf(in)
+			if c == nil {
+				return false
+			}
+			o := calleeObj(c)
+			return o != nil && o.Name() == "Remove" && isIfaceMethodCall(c, st, "Remove")
+		}
+		isCascade := func(in ssa.Instruction) bool {
+			c := callOf(in)
+			_, isDefer := in.(*ssa.Defer)
+			return c != nil && c.StaticCallee() == dd && !isDefer
+		}
+		// on the edges on which the fact exists
+		type edge struct {
+			b *ssa.BasicBlock
+			i int
+		}
+		del := map[edge]bool{}
+		for _, b := range rem.Blocks {
+			if len(b.Instrs) == 0 {
+				continue
+			}
+			if ifi, ok := b.Instrs[len(b.Instrs)-1].(*ssa.If); ok {
+				if ct, ok := decodeIf(ifi); ok {
+					if ex, ok := ct.V.(*ssa.Extract); ok && ex.Index == 1 {
+						if lk, ok := ex.Tuple.(*ssa.Lookup); ok && lk.CommaOk && isFieldLoad(lk.X, owner, ff) {
+							if ct.TrueWhen == "true" {
+								del[edge{b, 1}] = true
+							} else if ct.TrueWhen == "false" {
+								del[edge{b, 0}] = true
+							}
+						}
+					}
+				}
+			}
+		}
+		ef := func(from *ssa.BasicBlock, si int) bool { return !del[edge{from, si}] }
+		key := "fn=" + fname(rem)
+		if h, path := reach(rem, nil, isCascade, isStoreRemove, ef); h != nil {
+			r.violation("REM-ORDER", key, w.PosOf(h), "the cascade to the dependents can run before the id's own storage record is removed", blockPathString(w, path)...)
+		} else {
+			r.ok("REM-ORDER", key, w.Pos(rem.Pos()), "own record first, dependents after")
+		}
+	}
+}
+
+// BOLT-ERR (C06): errors of the bolt API reach the caller of the storage back end.
+func ruleBoltErr(w *World, r *Report) {
+	r.Rule("BOLT-ERR", "in the Bolt storage back end the error of every bolt call (Put, Delete, CreateBucket..., DeleteBucket, and of the View/Update transactions themselves) reaches the result of the transaction closure and of the Storage method: a failed write is never acknowledged", 6)
+	isSrc := func(c *ssa.CallCommon) (string, bool) {
+		o := calleeObj(c)
+		if o == nil || o.Pkg() == nil || o.Pkg().Path() != boltPath || errorResultIndex(c.Signature()) < 0 {
+			return "", false
+		}
+		n := recvNamed(o)
+		name := o.Name()
+		if n != nil {
+			name = n.Obj().Name() + "." + name
+		}
+		return "bolt." + name, true
+	}
+	srcs := &errSourceSet{w: w, isSource: isSrc, carries: map[*ssa.Function]string{}}
+	scope := func(fn *ssa.Function) bool { return w.RelPkg(fn) == "storage/bolt" }
+	runErrFlow(w, r, "BOLT-ERR", srcs, scope, nil, errflowCfg{handler: defaultErrHandlers, allowClassify: true, successOnly: true})
+}
+
+// RESP-LAST (C18): the success output of an /api/loc case is written after everything that can fail.
+func ruleRespLast(w *World, r *Report) {
+	r.Rule("RESP-LAST", "in every /api/loc/* case of ProcessRequest no System call (nor inner request) that can fail is reachable after the case has started to write its success output: otherwise a failing operation is answered with a success body (HTTP 200) followed by an error.  The batch case, which streams one result per element by design, is the named exception", 10)
+	pr := w.Method("service", "Service", "ProcessRequest")
+	out := pr.Params[3]
+	isOutWrite := func(in ssa.Instruction) bool {
+		c := callOf(in)
+		if c == nil {
+			return false
+		}
+		if c.IsInvoke() && c.Method.Name() == "Write" && valueIs(c.Value, out) {
+			return true
+		}
+		// fmt.Fprintf(out, ...)
+		if f := c.StaticCallee(); f != nil && f.Pkg != nil && f.Pkg.Pkg.Path() == "fmt" && len(c.Args) > 0 {
+			if mi, ok := c.Args[0].(*ssa.MakeInterface); ok && valueIs(mi.X, out) {
+				return true
+			}
+			return valueIs(c.Args[0], out)
+		}
+		return false
+	}
+	isFallible := func(in ssa.Instruction) bool {
+		c := callOf(in)
+		if c == nil || errorResultIndex(c.Signature()) < 0 {
+			return false
+		}
+		return isSystemMethod(c) || c.StaticCallee() == pr
+	}
+	// per case body
+	n := 0
+	for _, b := range pr.Blocks {
+		if len(b.Instrs) == 0 {
+			continue
+		}
+		ifi, ok := b.Instrs[len(b.Instrs)-1].(*ssa.If)
+		if !ok {
+			continue
+		}
+		cmp, ok := ifi.Cond.(*ssa.BinOp)
+		if !ok || cmp.Op != token.EQL {
+			continue
+		}
+		cs, ok := constString(cmp.Y)
+		if !ok || len(cs) < 9 || cs[:9] != "/api/loc/" {
+			continue
+		}
+		body := b.Succs[0]
+		n++
+		key := "case=" + cs
+		bad := ""
+		for _, bb := range pr.Blocks {
+			if !body.Dominates(bb) {
+				continue
+			}
+			for _, in := range bb.Instrs {
+				if !isOutWrite(in) {
+					continue
+				}
+				// a fallible call reachable after the write, staying inside the case
+				h, _ := reach(pr, in, func(x ssa.Instruction) bool { return isFallible(x) && body.Dominates(x.Block()) }, nil, func(from *ssa.BasicBlock, si int) bool {
+					return body.Dominates(from.Succs[si])
+				})
+				if h != nil && bad == "" {
+					bad = "output written at " + w.PosOf(in) + " before the fallible call at " + w.PosOf(h)
+				}
+			}
+		}
+		if bad != "" {
+			if cs == "/api/loc/batch" {
+				r.exempt("RESP-LAST", key, w.PosOf(ifi), "the batch case streams one result (or an inline {\"error\":...}) per element by design")
+			} else {
+				r.violation("RESP-LAST", key, w.PosOf(ifi), bad)
+			}
+		} else {
+			r.ok("RESP-LAST", key, w.PosOf(ifi), "success output is written last")
+		}
+	}
+	r.stat("RESP-LAST.cases", n)
+}
+
+// LOAD-FRESH (C02/C06): every stored record is decoded into an object of its own.
+func ruleLoadFresh(w *World, r *Report) {
+	r.Rule("LOAD-FRESH", "in every State implementation's Load, the object each stored record is unmarshalled into is allocated inside the loop over the records (a new one per record): json.Unmarshal keeps the existing keys of a non-nil map, so a variable hoisted out of the loop makes every loaded fact the union of the facts loaded before it", 2)
+	a := newLocAnchors(w)
+	for n := range a.stateImp {
+		fn := w.Method("core", n.Obj().Name(), "Load")
+		key := "fn=" + fname(fn)
+		cnt := 0
+		bad := ""
+		allInstrs(fn, func(in ssa.Instruction) {
+			c, ok := in.(*ssa.Call)
+			if !ok {
+				return
+			}
+			f := c.Common().StaticCallee()
+			if f == nil || f.Pkg == nil || f.Pkg.Pkg.Path() != "encoding/json" || f.Name() != "Unmarshal" {
+				return
+			}
+			if !reachable(fn, in, in) {
+				return // not in a loop
+			}
+			cnt++
+			// the target: second argument, an interface wrapping a pointer to a local
+			tgt := c.Common().Args[1]
+			if mi, ok := tgt.(*ssa.MakeInterface); ok {
+				tgt = mi.X
+			}
+			al, ok := tgt.(*ssa.Alloc)
+			if !ok {
+				bad = "cannot identify the object the record is decoded into at " + w.PosOf(in)
+				return
+			}
+			// every cycle through the Unmarshal passes the allocation (or a store of a fresh value into the slot)
+			reinit := func(x ssa.Instruction) bool {
+				if x == ssa.Instruction(al) {
+					return true
+				}
+				if st, ok := x.(*ssa.Store); ok && st.Addr == ssa.Value(al) {
+					return isNilConst(st.Val) || isFreshBase(st.Val)
+				}
+				return false
+			}
+			if h, _ := reach(fn, in, func(x ssa.Instruction) bool { return x == in }, reinit, nil); h != nil {
+				bad = "the object decoded into at " + w.PosOf(in) + " is shared by all iterations of the loop"
+			}
+		})
+		switch {
+		case cnt == 0:
+			r.violation("LOAD-FRESH", key, w.Pos(fn.Pos()), "Load no longer unmarshals the stored records in a loop (shape changed)")
+		case bad != "":
+			r.violation("LOAD-FRESH", key, w.Pos(fn.Pos()), bad)
+		default:
+			r.ok("LOAD-FRESH", key, w.Pos(fn.Pos()), "one fresh object per record")
+		}
+	}
+}
+
+// ANC-PATH (C09): the ancestor walk's set holds the current path, not everything ever visited.
+func ruleAncPath(w *World, r *Report) {
+	r.Rule("ANC-PATH", "the set that guards the ancestor walk against loops holds the locations on the *current path*: every insertion is undone (deleted, possibly deferred) on every way out of that call; a set that only grows would report a shared ancestor (a diamond: two parents with a common grandparent) as a loop", 1)
+	var walk *ssa.Function
+	for _, name := range []string{"doAncestors", "DoAncestors"} {
+		if f := w.TryMethod("core", "Location", name); f != nil {
+			allInstrs(f, func(in ssa.Instruction) {
+				if c := callOf(in); c != nil && c.StaticCallee() == f {
+					walk = f
+				}
+			})
+		}
+	}
+	if walk == nil {
+		undecided("ANC-PATH: recursive ancestor walk not found")
+	}
+	var set *ssa.Parameter
+	for _, p := range walk.Params {
+		if _, ok := p.Type().Underlying().(*types.Map); ok {
+			set = p
+		}
+	}
+	key := "fn=" + fname(walk)
+	if set == nil {
+		r.info("ANC-PATH", key, w.Pos(walk.Pos()), "the walk has no set parameter (bounded in another way; see TERM)")
+		return
+	}
+	isInsert := func(in ssa.Instruction) bool {
+		mu, ok := in.(*ssa.MapUpdate)
+		return ok && mu.Map == ssa.Value(set)
+	}
+	isDelete := func(in ssa.Instruction) bool {
+		c := callOf(in)
+		if c == nil {
+			return false
+		}
+		b, ok := c.Value.(*ssa.Builtin)
+		return ok && b.Name() == "delete" && len(c.Args) == 2 && c.Args[0] == ssa.Value(set)
+	}
+	n, misses := mustFollow(walk, isInsert, isDelete)
+	if n == 0 {
+		r.violation("ANC-PATH", key, w.Pos(walk.Pos()), "the walk never inserts into its set")
+	} else if len(misses) > 0 {
+		r.violation("ANC-PATH", key, w.PosOf(misses[0].A), "a location stays in the walk's set after its subtree has been left: an ancestor reachable along two paths is reported as a loop")
+	} else {
+		r.ok("ANC-PATH", key, w.Pos(walk.Pos()), "insertions are undone on every exit")
+	}
+}
